@@ -24,7 +24,9 @@ class _Tqdm:
 
 LINKS = ['[ link ]\nresname "A|B"\n[ bonds ]\n{la} +{fa} 1 0.40 400\n',
          '[ link ]\nresname "A|B"\n[ angles ]\n{la} +{fa} ++{fa} 2 125 60\n',
-         '[ link ]\nresname "A|B"\n[ bonds ]\n{fa} >{fa} 6 0.9 10 {{"comment": "long"}}\n']
+         '[ link ]\nresname "A|B"\n[ bonds ]\n{fa} >{fa} 6 0.9 10 {{"comment": "long"}}\n',
+         # a link to *any* bonded residue: both orientations of a residue pair are applied
+         '[ link ]\nresname "A|B"\n[ angles ]\n{fa} {la} *{fa} 2 133 33\n']
 
 
 # two non-conflicting links on the same junction: one re-types the first atom of the B residue, the other is written for the
@@ -88,7 +90,7 @@ def relabel(sx, B):
     shape = sx.sel("shape", sorted(GRAPHS[n]))
     names = [sx.sel("res%d" % i, ["A", "B"]) for i in range(n)]
     perm = sx.sel("resid_order", list(itertools.permutations(range(n)))[:6])
-    nlinks = sx.sel("links", [1, 3])
+    nlinks = sx.sel("links", [1, 4])
     keymode, ins, eflip, deforder = sx.sel("transform", B["transforms"])
     specs = {"A": simple_block("A", 2, multi=False, nrexcl=sx.sel("nrexclA", [1, 2])), "B": simple_block("B", 3, multi=True)}
     la, fa = "{la}", "{fa}"
